@@ -406,3 +406,46 @@ class Capacity:
     def restore(self):
         for (o, k), v in zip(self.holders, self.old):
             setattr(o, k, v)
+
+
+# ---------------------------------------------------------------------------------------------
+def in_child(fn, *args, timeout=600):
+    """Run fn(*args) in a forked child and return its (picklable) result.  For native replays of obligations whose failure means
+    that compiled code may write outside its buffers: the parent survives, and a child killed by a signal IS the reproduction."""
+    import os
+    import pickle
+    import signal
+    import time as _t
+    r_fd, w_fd = os.pipe()
+    pid = os.fork()
+    if pid == 0:
+        code = 0
+        try:
+            os.close(r_fd)
+            try:
+                out = fn(*args)
+            except BaseException as exc:      # noqa
+                out = dict(reproduced=None, raised=repr(exc)[:300])
+            with os.fdopen(w_fd, "wb") as f:
+                pickle.dump(out, f)
+        except BaseException:                 # noqa
+            code = 1
+        os._exit(code)
+    os.close(w_fd)
+    data = b""
+    t0 = _t.time()
+    with os.fdopen(r_fd, "rb") as f:
+        data = f.read()
+    _, status = os.waitpid(pid, 0)
+    if os.WIFSIGNALED(status):
+        sig = os.WTERMSIG(status)
+        try:
+            name = signal.Signals(sig).name
+        except ValueError:
+            name = str(sig)
+        return dict(reproduced=True, child_process_killed_by=name,
+                    note="the real (compiled) code run on the replay input crashed the interpreter: it wrote outside its buffers")
+    try:
+        return pickle.loads(data)
+    except Exception as exc:
+        return dict(reproduced=None, replay_error="no result from the replay process: %r" % (exc,))
